@@ -41,7 +41,7 @@ FUNCS = [
     ("ubxmessage.py", "UBXMessage._set_attribute_bits"), ("ubxmessage.py", "UBXMessage._set_attribute_bitfield"),
     ("ubxmessage.py", "UBXMessage._set_attribute_cfgval"),
     ("ubxhelpers.py", "key_from_val"), ("ubxhelpers.py", "msgstr2bytes"), ("ubxhelpers.py", "msgclass2bytes"),
-    ("ubxhelpers.py", "cfgname2key"), ("ubxhelpers.py", "bytes2val"),
+    ("ubxhelpers.py", "cfgname2key"), ("ubxhelpers.py", "bytes2val"), ("ubxhelpers.py", "val2bytes"),
     ("ubxmessage.py", "UBXMessage.msg_cls"), ("ubxmessage.py", "UBXMessage.msg_id"), ("ubxmessage.py", "UBXMessage.msgmode"),
 ]
 
